@@ -1370,9 +1370,9 @@ TRUSTED = ['translate/lincomb.py (Python ast -> Gallina: thresholds, regime test
            '(x.data, ravel(order=ravel_order), get_blas_funcs) are pinned textually',
            'C01/Model.v interpreter of the generated syntax; C01/ModelSpace.v transcription of '
            'odl/set/space.py operators and odl/space/pspace.py recursion (validated by the correspondence)',
-           'the Q instance is proved to be the rational restriction of the R instance for _lincomb (Props: '
-           'lincomb_executed_model_is_rational_restriction); for the space-level programs, the complex and the '
-           'poisoned carriers this link is not proved',
+           'the Q instance is proved to be the rational restriction of the R instance for _lincomb and for every '
+           'regenerated operator program on nested spaces (Props: *_is_rational_restriction); for __ipow__, '
+           'broadcasting, the complex and the poisoned carriers this link is not proved',
            'translate/space_ops.py (wrapper layers -> Gen/SpaceOps.v), fail-closed; __ipow__, __neg__, __pos__, '
            '__radd__, __rmul__, copy are pinned textually']
 LEVEL_TEXT = ('Proof: for the decision tree, fallback bodies, direct expression, thresholds and regime rule regenerated '
